@@ -635,7 +635,7 @@ namespace via
       bool set_header_string(std::string_view header_string)
       {
         header_string_ = header_string;
-        return !are_headers_split(header_string_);
+        return is_valid();
       }
 
       /// Add a standard header to the response.
@@ -670,7 +670,12 @@ namespace via
       /// Determine whether the response is valid.
       /// @return true if the response does not contain "split headers".
       bool is_valid() const noexcept
-      { return !are_headers_split(header_string_); }
+      {
+        // the header string must also consist of complete lines, otherwise the
+        // line (or the blank line) added by message() is absorbed by the last one
+        return !are_headers_split(header_string_) &&
+               (header_string_.empty() || ('\n' == header_string_.back()));
+      }
 
       /// The http message header string.
       /// @param content_length the size of the message body for the
